@@ -509,6 +509,8 @@ func runC16(c *Check) {
 	c.ruleSpliceRemovesOne("R11", 10, "client")
 	c.ruleHeadersRoutedByRequestHeight("R12")
 	c.ruleClientChannelSenders("R13", clientChannelSenders)
+	c.ruleResponsesAlwaysForwarded("R14")
+	c.ruleRequestTimerAfterSend("R15")
 	c.ruleRemoveByIdentity("R6", fRequests, c.P.Field("client", "RemoteClient", "removeRequestsChannel"))
 
 	// ---- R6 ownership of the pending list
